@@ -66,9 +66,16 @@ def run_case(case, ctx):
     kind = gen.KINDS[i % 3]
     via_module = (i // 3) % 2 == 1
     nv = int(rng.integers(1, 5))
-    default_h = (i // 6) % 3 == 0
-    nh = nv if default_h else nv + int(rng.integers(1, 3))
-    na = nv if default_h else nv + int(rng.integers(2, 4))
+    # which sizes are given: none (both default to num_visible) / both / only num_hidden / only num_aux
+    dmode = (i // 6) % 4
+    default_h = dmode == 0 or (dmode == 3 and kind != "mixed")
+    nh = nv + int(rng.integers(1, 3))
+    na = nv + int(rng.integers(2, 4))
+    if default_h or dmode == 3:
+        nh = nv
+    if default_h or dmode == 2:
+        na = nv
+    partial = (not default_h) and dmode in (2, 3) and kind == "mixed"
     tags = {"state": kind, "via_module": via_module}
     ops = []
     import qucumber
@@ -77,7 +84,11 @@ def run_case(case, ctx):
     # ------------------------------------------------------------------ construct
     if via_module:
         if kind == "mixed":
-            module = PurificationRBM(nv, None if default_h else nh, None if default_h else na, gpu=False)
+            if partial:
+                module = PurificationRBM(nv, num_hidden=nh, gpu=False) if dmode == 2 else PurificationRBM(nv, num_aux=na, gpu=False)
+                ctx.count("partially_defaulted_sizes")
+            else:
+                module = PurificationRBM(nv, None if default_h else nh, None if default_h else na, gpu=False)
         else:
             module = BinaryRBM(nv, None if default_h else nh, gpu=False)
         for n_, p_ in module.named_parameters():  # non-zero biases so that "equal values" is informative
@@ -115,7 +126,12 @@ def run_case(case, ctx):
         import warnings as _w
         with _w.catch_warnings():
             _w.simplefilter("ignore")
-            st = ctx.lib("construct(sizes)", CLS[kind], *args, gpu=gpu_req, tags=dict(tags, gpu_requested=gpu_req))
+            if partial:
+                kw_ = {"num_hidden": nh} if dmode == 2 else {"num_aux": na}
+                st = ctx.lib("construct(sizes)", CLS[kind], nv, gpu=gpu_req, tags=dict(tags, gpu_requested=gpu_req, sizes_given=",".join(kw_)), **kw_)
+                ctx.count("partially_defaulted_sizes")
+            else:
+                st = ctx.lib("construct(sizes)", CLS[kind], *args, gpu=gpu_req, tags=dict(tags, gpu_requested=gpu_req))
         if gpu_req:
             ctx.count("constructions_requesting_gpu_on_cpu")
             if str(st.device) != "cpu" or any(str(p_.device) != "cpu" for p_ in st.rbm_am.parameters()):
